@@ -42,6 +42,7 @@ import (
 
 	"github.com/miekg/dns"
 	"github.com/semihalev/sdns/config"
+	"github.com/semihalev/sdns/internal/dnsutil"
 	"github.com/semihalev/sdns/internal/ecs"
 	"github.com/semihalev/sdns/middleware"
 	"github.com/semihalev/sdns/middleware/edns"
@@ -218,7 +219,7 @@ func vC19RandPrefix(r *rand.Rand) netip.Prefix {
 	return netip.PrefixFrom(a, bits) // host bits kept
 }
 
-var vC19Malformed = []string{"", "10.0.0.0", "10.0.0.0/33", "::/129", "10.0.0.0/-1", "10.0.0.256/8", "fe80::1%eth0/64", "1.2.3.4/ 8", "/8", "2001:db8::/x"}
+var vC19Malformed = []string{"", " ", "\t", "  ", " 10.0.0.0/8", "10.0.0.0/8 ", "10.0.0.0", "10.0.0.0/33", "::/129", "10.0.0.0/-1", "10.0.0.256/8", "fe80::1%eth0/64", "1.2.3.4/ 8", "/8", "2001:db8::/x", "", " "}
 
 type vC19BuildArgs struct {
 	enabled        bool
@@ -276,7 +277,7 @@ func vC19GenBuildArgs(r *rand.Rand) vC19BuildArgs {
 		n = 0
 	}
 	for i := 0; i < n; i++ {
-		if r.Intn(12) == 0 {
+		if r.Intn(7) == 0 {
 			b.nets = append(b.nets, vC19Malformed[r.Intn(len(vC19Malformed))])
 		} else {
 			b.nets = append(b.nets, vC19RandPrefix(r).String())
@@ -650,6 +651,9 @@ func vC19GenRespOpts(r *rand.Rand, seen *dns.EDNS0_SUBNET, floors [2]int) ([]dns
 }
 
 func vC19AnswerIP(id int) net.IP { return net.IP{10, byte(id >> 16), byte(id >> 8), byte(id)} }
+
+// the id of a scripted answer: in the A record of a positive answer, in the SOA serial of an
+// NXDOMAIN / NODATA, in the name server name of a referral
 func vC19AnswerID(m *dns.Msg) int {
 	for _, rr := range m.Answer {
 		if a, ok := rr.(*dns.A); ok {
@@ -657,12 +661,35 @@ func vC19AnswerID(m *dns.Msg) int {
 			return int(ip[1])<<16 | int(ip[2])<<8 | int(ip[3])
 		}
 	}
+	for _, rr := range m.Ns {
+		switch x := rr.(type) {
+		case *dns.SOA:
+			return int(x.Serial)
+		case *dns.NS:
+			var id int
+			if _, err := fmt.Sscanf(x.Ns, "ns%d.", &id); err == nil {
+				return id
+			}
+		}
+	}
 	return -1
 }
+
+// response classes of the scripted authority
+const (
+	vC19Positive = iota
+	vC19NXDomainClass
+	vC19NoData
+	vC19Referral
+)
+
+var vC19ClassName = []string{"positive", "nxdomain", "nodata", "referral"}
 
 type vC19Script struct {
 	id     int
 	ttl    int
+	class  int
+	msgTTL time.Duration // dnsutil.CalculateCacheTTL of the response as classified
 	called bool
 	seen   *dns.EDNS0_SUBNET
 	opts   []dns.EDNS0
@@ -678,7 +705,24 @@ func (s *vC19Script) serve(ctx context.Context, ch *middleware.Chain) {
 	resp := new(dns.Msg)
 	resp.SetReply(req)
 	resp.RecursionAvailable = true
-	resp.Answer = []dns.RR{&dns.A{Hdr: dns.RR_Header{Name: req.Question[0].Name, Rrtype: dns.TypeA, Class: dns.ClassINET, Ttl: uint32(s.ttl)}, A: vC19AnswerIP(s.id)}}
+	qn := req.Question[0].Name
+	soa := func() dns.RR {
+		return &dns.SOA{Hdr: dns.RR_Header{Name: "geo.test.", Rrtype: dns.TypeSOA, Class: dns.ClassINET, Ttl: uint32(s.ttl)}, Ns: "ns.geo.test.", Mbox: "h.geo.test.",
+			Serial: uint32(s.id), Refresh: 3600, Retry: 600, Expire: 86400, Minttl: uint32(s.ttl)}
+	}
+	switch s.class {
+	case vC19NXDomainClass:
+		resp.Rcode = dns.RcodeNameError
+		resp.Ns = []dns.RR{soa()}
+	case vC19NoData:
+		resp.Ns = []dns.RR{soa()}
+	case vC19Referral:
+		resp.Ns = []dns.RR{&dns.NS{Hdr: dns.RR_Header{Name: "geo.test.", Rrtype: dns.TypeNS, Class: dns.ClassINET, Ttl: uint32(s.ttl)}, Ns: fmt.Sprintf("ns%d.elsewhere.test.", s.id)}}
+	default:
+		resp.Answer = []dns.RR{&dns.A{Hdr: dns.RR_Header{Name: qn, Rrtype: dns.TypeA, Class: dns.ClassINET, Ttl: uint32(s.ttl)}, A: vC19AnswerIP(s.id)}}
+	}
+	mt, _ := dnsutil.ClassifyResponse(resp, time.Now().UTC())
+	s.msgTTL = dnsutil.CalculateCacheTTL(resp, mt)
 	if s.hasOPT {
 		o := &dns.OPT{Hdr: dns.RR_Header{Name: ".", Rrtype: dns.TypeOPT}}
 		o.SetUDPSize(1232)
@@ -690,7 +734,11 @@ func (s *vC19Script) serve(ctx context.Context, ch *middleware.Chain) {
 }
 
 func (s *vC19Script) coq() string {
-	return fmt.Sprintf("(mk_uresp %d %d%%Z %s)", s.id, int64(s.ttl)*1000000000, vC19OptOpts(s.opts, s.hasOPT))
+	ttl := s.msgTTL
+	if !s.called {
+		ttl = time.Duration(s.ttl) * time.Second // never asked: the value is not used by the model
+	}
+	return fmt.Sprintf("(mk_uresp %d %d%%Z %s)", s.id, int64(ttl), vC19OptOpts(s.opts, s.hasOPT))
 }
 
 // independent audience bookkeeping
@@ -825,15 +873,21 @@ type vC19Planned struct {
 	qi           int
 	cd, aged     bool
 	upTTL, rfTTL int
+	upClass      int
+	rfClass      int
 	upGen, rfGen func(seen *dns.EDNS0_SUBNET) ([]dns.EDNS0, bool)
 }
 
-// the history of Properties.scoped_only_inside_scope_refuted (Proofs_cache.leak_ops), replayed on
-// the real code on every run
+// regression for the former finding prefetch-ecs-overwrites-shared (fixed by d979d25): the history
+// Proofs_cache.leak_ops, replayed on the real code on every run.  The refresh upstream would answer
+// with SCOPE /24 if it saw a subnet option; it must not see one.
 func vC19LeakReplay(tr *vC19Trace) {
 	b := vC19BuildArgs{enabled: true}
 	none := func(*dns.EDNS0_SUBNET) ([]dns.EDNS0, bool) { return nil, false }
 	echo24 := func(seen *dns.EDNS0_SUBNET) ([]dns.EDNS0, bool) {
+		if seen == nil {
+			return nil, false
+		}
 		return []dns.EDNS0{&dns.EDNS0_SUBNET{Code: dns.EDNS0SUBNET, Family: 1, SourceNetmask: 24, SourceScope: 24, Address: vC19V4(203, 0, 113, 0)}}, true
 	}
 	a := vC19Client{remote: vC19V4(198, 51, 100, 10), hasOPT: true,
@@ -843,39 +897,42 @@ func vC19LeakReplay(tr *vC19Trace) {
 		{cl: a, aged: true, upTTL: 60, rfTTL: 60, upGen: none, rfGen: echo24},
 		{cl: vC19Client{remote: vC19V4(198, 51, 100, 11), hasOPT: true}, upTTL: 60, rfTTL: 60, upGen: none, rfGen: none},
 	}
-	vC19ExecHistory(tr, b, 0, true, func(*ecs.Policy, [2]int) []vC19Planned { return plan }, "cache-replay-refresh-leak")
+	vC19ExecHistory(tr, b, 0, true, false, func(*ecs.Policy, [2]int) []vC19Planned { return plan }, "cache-replay-refresh")
 }
 
 func vC19HistoryCase(tr *vC19Trace, r *rand.Rand) {
 	b := vC19GenCacheArgs(r)
 	ecsMax := []time.Duration{0, 30 * time.Second, 300 * time.Second, 7200 * time.Second, 2 * time.Second}[r.Intn(5)]
 	prefetch := r.Intn(3) != 0
-	// refreshes carrying a client subnet option (a listed finding) only in a minority of histories
-	allowECSRefresh := r.Intn(8) == 0
-	shortLived := ecsMax > 0 && ecsMax < 5*time.Second
-	vC19ExecHistory(tr, b, ecsMax, prefetch, func(pol *ecs.Policy, floors [2]int) []vC19Planned {
+	// referrals are kept for 5 s whatever their TTL says: histories with one are short-lived too
+	withReferrals := r.Intn(6) == 0
+	shortLived := (ecsMax > 0 && ecsMax < 5*time.Second) || withReferrals
+	vC19ExecHistory(tr, b, ecsMax, prefetch, shortLived, func(pol *ecs.Policy, floors [2]int) []vC19Planned {
 		clients := vC19GenClients(r, b)
 		nops := 5 + r.Intn(9)
 		if shortLived {
 			nops = 3 + r.Intn(3)
 		}
 		gen := func(seen *dns.EDNS0_SUBNET) ([]dns.EDNS0, bool) { return vC19GenRespOpts(r, seen, floors) }
+		class := func() int {
+			switch r.Intn(10) {
+			case 0, 1:
+				return vC19NXDomainClass
+			case 2, 3:
+				return vC19NoData
+			case 4:
+				if withReferrals {
+					return vC19Referral
+				}
+			}
+			return vC19Positive
+		}
 		var plan []vC19Planned
 		for i := 0; i < nops; i++ {
 			pl := vC19Planned{cl: clients[r.Intn(len(clients))], qi: r.Intn(2), cd: r.Intn(10) == 0, aged: r.Intn(3) == 0,
-				upTTL: []int{20, 60, 300, 3600, 86400, 200000}[r.Intn(6)], rfTTL: []int{20, 300, 86400, 200000}[r.Intn(4)], upGen: gen, rfGen: gen}
-			// would this client's subnet be forwarded?  keep subnet-carrying refreshes to the
-			// histories that are meant to have them
-			ca, _ := netip.AddrFromSlice(pl.cl.remote)
-			forwards := false
-			if pol.Allows(ca.Unmap()) {
-				for _, x := range pl.cl.opts {
-					if s, ok := x.(*dns.EDNS0_SUBNET); ok && pol.Clamp(s) != nil {
-						forwards = true
-					}
-				}
-			}
-			if (forwards && !allowECSRefresh) || shortLived {
+				upTTL: []int{20, 60, 300, 3600, 86400, 200000}[r.Intn(6)], rfTTL: []int{20, 300, 86400, 200000}[r.Intn(4)],
+				upClass: class(), rfClass: class(), upGen: gen, rfGen: gen}
+			if shortLived {
 				pl.aged = false
 			}
 			plan = append(plan, pl)
@@ -884,10 +941,9 @@ func vC19HistoryCase(tr *vC19Trace, r *rand.Rand) {
 	}, "cache-history")
 }
 
-func vC19ExecHistory(tr *vC19Trace, b vC19BuildArgs, ecsMax time.Duration, prefetch bool, mkPlan func(*ecs.Policy, [2]int) []vC19Planned, kind string) {
-	// a limit below the 5 s TTL floor: entries live 2 s, so such histories are short, never aged, and
-	// dropped if the machine stalled
-	shortLived := ecsMax > 0 && ecsMax < 5*time.Second
+func vC19ExecHistory(tr *vC19Trace, b vC19BuildArgs, ecsMax time.Duration, prefetch bool, shortLived bool, mkPlan func(*ecs.Policy, [2]int) []vC19Planned, kind string) {
+	// short-lived histories (a limit below the 5 s TTL floor, or referrals): entries live 2-5 s, so they
+	// are short, never aged, and dropped if the machine stalled
 	started := time.Now()
 	c, e, _ := vC19NewCache(b, ecsMax, prefetch)
 	defer c.Stop()
@@ -902,7 +958,7 @@ func vC19ExecHistory(tr *vC19Trace, b vC19BuildArgs, ecsMax time.Duration, prefe
 	var desc []map[string]any
 	known := map[int]vC19Answer{}
 	byEntry := map[*CacheEntry]int{} // which answer an entry holds
-	goFail, fkey := "", ""
+	goFail := ""
 	scopedHits, sharedHits, refreshes, scopedStores := 0, 0, 0, 0
 	fail := func(s string) {
 		if goFail == "" {
@@ -912,8 +968,8 @@ func vC19ExecHistory(tr *vC19Trace, b vC19BuildArgs, ecsMax time.Duration, prefe
 	nextID := 1
 	for i, pl := range plan {
 		cl, qi, cd, aged := pl.cl, pl.qi, pl.cd, pl.aged
-		up := &vC19Script{id: nextID, ttl: pl.upTTL, gen: pl.upGen}
-		rf := &vC19Script{id: nextID + 1, ttl: pl.rfTTL, gen: pl.rfGen}
+		up := &vC19Script{id: nextID, ttl: pl.upTTL, class: pl.upClass, gen: pl.upGen}
+		rf := &vC19Script{id: nextID + 1, ttl: pl.rfTTL, class: pl.rfClass, gen: pl.rfGen}
 		nextID += 2
 
 		req := new(dns.Msg)
@@ -1058,6 +1114,7 @@ func vC19ExecHistory(tr *vC19Trace, b vC19BuildArgs, ecsMax time.Duration, prefe
 			d["result"] = "miss"
 			d["upstream_saw"] = fmt.Sprint(up.seen)
 			d["authority_opt"] = fmt.Sprint(up.opts)
+			d["answer_class"] = vC19ClassName[up.class]
 			d["stored_scope"] = en.scope.String()
 			d["stored_ttl"] = en.ttl.String()
 		} else {
@@ -1107,13 +1164,11 @@ func vC19ExecHistory(tr *vC19Trace, b vC19BuildArgs, ecsMax time.Duration, prefe
 					declared := vC19DeclaredScope(rf.opts, rf.hasOPT)
 					eff := vC19Effective(pol, declared, rf.seen)
 					known[rf.id] = vC19Answer{q: names[qi], cd: cd, eff: netip.Prefix{}}
+					if rf.seen != nil {
+						fail(fmt.Sprintf("op %d: the background refresh showed the subnet %v to the upstream", i, rf.seen))
+					}
 					if eff.IsValid() {
-						// the refresh carried this client's subnet upstream and the scoped answer it got
-						// replaced the shared entry
-						fail(fmt.Sprintf("op %d: refresh of the shared entry sent %v upstream; the answer scoped to %s now sits under the shared key", i, rf.seen, eff))
-						if fkey == "" && goFail != "" && strings.Contains(goFail, "refresh of the shared entry") {
-							fkey = "prefetch-ecs-overwrites-shared"
-						}
+						fail(fmt.Sprintf("op %d: the answer of a refresh, scoped to %s, now sits under the shared key", i, eff))
 					}
 				} else {
 					fail(fmt.Sprintf("op %d: refresh wrote %d entries", i, len(fresh)))
@@ -1148,7 +1203,7 @@ func vC19ExecHistory(tr *vC19Trace, b vC19BuildArgs, ecsMax time.Duration, prefe
 	}
 	tr.emit(map[string]any{"k": k,
 		"coq":     fmt.Sprintf("CaseCache (mk_ccfg %s %d%%Z %s) [%s]", b.coq(), int64(ecsMax), vC19Bool(prefetch), strings.Join(ops, "; ")),
-		"go_fail": goFail, "fkey": fkey, "nontrivial": scopedStores > 0 || sharedHits > 0,
+		"go_fail": goFail, "nontrivial": scopedStores > 0 || sharedHits > 0,
 		"desc": map[string]any{"ecs_cfg": fmt.Sprintf("%+v", b), "cache_limit_ttl": ecsMax.String(), "prefetch": prefetch, "ops": desc}})
 }
 
